@@ -505,6 +505,12 @@ func init() {
 	// Result.Index (an offset computed from two string headers) is not read by coraza: left 0
 	reg("github.com/tidwall/gjson.fillIndex", func(fr *frame, args []value) value { return nil })
 
+	// encoding/json is reflection all the way down: Marshal is an opaque stub (fixed text, no
+	// error); only callers that do not look at the text may rely on it
+	reg("encoding/json.Marshal", func(fr *frame, args []value) value {
+		return tuple{strBytes("{}"), iface{}}
+	})
+
 	// go:linkname pull
 	reg("mime/multipart.readMIMEHeader", func(fr *frame, args []value) value {
 		return fr.i.callByName(fr, "net/textproto.readMIMEHeader", args)
